@@ -21,7 +21,9 @@ import (
 	"sort"
 	"strings"
 	"sync"
+	"sync/atomic"
 	"testing"
+	"time"
 )
 
 // Failer is what both *testing.T and *rapid.T offer.
@@ -509,4 +511,39 @@ func Current(subName string, c interface{}) {
 	rf := ReplayFile{Property: Property, Sub: subName, Error: "the test process crashed while running this case", Case: b}
 	out, _ := json.Marshal(&rf)
 	os.WriteFile(filepath.Join(outDir, fmt.Sprintf("current.%d.json", shard())), out, 0o644)
+}
+
+// ---------------------------------------------------------------------------
+// starvation detector: a goroutine that ticks every 5 ms. When the whole
+// process is short of CPU (an overloaded machine) ticks go missing; when only
+// the code under test is stuck they do not. Watchdogs use it to tell a hang
+// from a slow machine.
+
+var (
+	beatOnce  sync.Once
+	beatCount int64
+)
+
+func startHeartbeat() {
+	beatOnce.Do(func() {
+		go func() {
+			for {
+				time.Sleep(5 * time.Millisecond)
+				atomic.AddInt64(&beatCount, 1)
+			}
+		}()
+	})
+}
+
+// Beats returns the heartbeat counter (start it with the first call).
+func Beats() int64 {
+	startHeartbeat()
+	return atomic.LoadInt64(&beatCount)
+}
+
+// Starved reports whether fewer than half of the heartbeats expected in the
+// elapsed time since the counter read `since` (taken at `at`) have happened.
+func Starved(since int64, at time.Time) bool {
+	expected := int64(time.Since(at) / (5 * time.Millisecond))
+	return expected > 20 && (Beats()-since)*2 < expected
 }
